@@ -678,8 +678,9 @@ def session_case(draw, shard, tier):
         elif kind == "method":
             ops.append(dict(op="method", m=d.pick("lagrange", "linear")))
         else:
-            ops.append(dict(op=kind, q=query(d, t["n"])))
-    ops.append(dict(op="interp", q=query(d, t["n"])))
+            # twin: right after it, the SAME CLOCK READING is asked in another time scale (another instant, 19 .. 32 s away)
+            ops.append(dict(op=kind, q=query(d, t["n"]), twin=d.int(0, 2) == 0))
+    ops.append(dict(op="interp", q=query(d, t["n"]), twin=d.coin()))
     return dict(t=t, order0=order0, method0=method0, vals=vals, smooth=smooth, perm=perm,
                 frame=d.pick(*FRAMES), form=d.pick(*FORMS), ops=ops)
 
@@ -741,6 +742,20 @@ def check_session(case):
         other = (eph.propagate if op["op"] == "interp" else eph.interpolate)(date)
         if not np.array_equal(np.asarray(other.base, float), got):
             raise Violation("propagate-differs", f"step {step}: propagate and interpolate disagree")
+        if op.get("twin"):
+            from beyond.dates import Date
+
+            for scale2 in ("TT", "GPS", "UTC"):
+                if scale2 == date.scale.name:
+                    continue
+                twin = Date(date.d, date.s, scale=scale2)
+                x2 = twin._mjd
+                if x2 == x or not (xs[0] <= x2 <= xs[-1]):
+                    continue
+                got2 = np.asarray(eph.interpolate(twin).base, float)
+                worst = max(worst, match_interpolant(xs, ys, method, k, x2, got2,
+                                                     f"step {step}: {twin} asked right after {date} (same reading, other scale; "
+                                                     f"{method}, order {k})"))
     # the table itself is untouched, sorted by date
     for j in range(n):
         if not np.array_equal(np.asarray(eph[j].base, float), ys[j]) or eph[j].date._mjd != xs[j]:
